@@ -3,6 +3,8 @@ verus! {
 
 pub open spec fn rem_of<AB: ArrivalBound + ?Sized>(tua: &TaskUnderAnalysis<AB>) -> int { tua.last_np_segment.v() - 1 }
 
+/// the observation of the step stream covers every offset the search can reach
+pub open spec fn pre_steps<AB: ArrivalSteps + ?Sized>(tua: &TaskUnderAnalysis<AB>, limit: int, n: int) -> bool { tua.arrivals.steps_ok(n) && tua.arrivals.steps_hz(n) >= limit }
 pub open spec fn pre<AB: ArrivalBound + ?Sized, B: RequestBound>(tua: &TaskUnderAnalysis<AB>, hp: Seq<B>, limit: int) -> bool {
     &&& 1 <= limit                            // limit 0: known finding KF7
     &&& limit + tua.wcet.wcet.v() <= u64::MAX
@@ -42,12 +44,13 @@ pub fn dedicated_uniproc_rta<InterferingRBF, AB>(
     tua: &TaskUnderAnalysis<AB>,
     interfering_tasks: &[InterferingRBF],
     limit: Duration,
+/*+*/vf_n: usize,/*-*/
 ) -> /*+*/(res: /*-*/fixed_point::SearchResult/*+*/)/*-*/
 where
     InterferingRBF: RequestBound,
-    AB: ArrivalBound + ?Sized,
+    AB: /*@R22: ArrivalBound @*/ArrivalSteps/*@.*/ + ?Sized,
 //@+
-    requires pre(tua, interfering_tasks@, limit.v())
+    requires pre(tua, interfering_tasks@, limit.v()), pre_steps(tua, limit.v(), vf_n as int)
     ensures res_view(res) == spec_result(tua, interfering_tasks@, limit.v())
 //@-
 {
@@ -196,14 +199,34 @@ where
     // The case of A=0 is not handled explicitly since `step_offsets()`
     // necessarily yields it.
     let max_offset = Offset::from_time_zero(L);
-    /*@R10: let search_space = demand::step_offsets(&tua_rbf).take_while(|A| *A < max_offset);
+//@+
+    let ghost hz = tua.arrivals.steps_hz(vf_n as int);
+//@-
+//@+
+    proof { assert(L.v() <= limit.v()); lemma_scalar_strict(&tua_rbf.wcet); }
+//@-
+    let search_space = demand::step_offsets(&tua_rbf/*+*/, vf_n/*-*/).take_while(|A/*+*/: &Offset/*-*/| /*+*/-> (r: bool) ensures r == (A.v() < max_offset.v()) { /*@probe*/ /*-*/*A < max_offset/*+*/ }, Ghost(|A: Offset| A.v() < max_offset.v())/*-*/);
+//@+
+    let ghost ss = search_space.0@;
+    let ghost mx = max_offset.v();
+    // the stream that take_while consumed (an unnamed temporary of the expression above)
+    let ghost offs: Seq<Offset> = choose |o: Seq<Offset>| #[trigger] offsets_exact(o, tf, hz) && tw_of(ss, o, mx);
+    proof {
+        assert(exists |o: Seq<Offset>| #[trigger] offsets_exact(o, tf, hz) && tw_of(ss, o, mx));
+        assert forall |i: int| 0 <= i < search_space.0@.len() implies #[trigger] rta.requires((search_space.0@[i],)) by {
+            assert(search_space.0@[i] == offs[i]);
+            assert(off_has(offs, offs[i].v()));
+        }
+    }
+//@-
 
     // Apply the offset-specific RTA to each offset in the search space and
     // return the maximum response-time bound.
-    fixed_point::max_response_time(search_space.map(rta)) @*/let vf_res = vf_tail_steps_below(&tua_rbf, max_offset, rta);
+    /*@R21: fixed_point::max_response_time(search_space.map(rta)) @*/let vf_rs = search_space.map_rel(rta);
+    let vf_res = fixed_point::max_response_time(vf_rs.as_slice());
     proof {
         let g = |x: int| f_off(tf, hf, bb, rem, limit.v(), x);
-        assert(rta_is(&rta, g, max_offset.v()));
+        lemma_tail_fold(offs, tf, hz, mx, ss, vf_rs.0@, g, vf_res);
         lemma_prune(tf, hf, bb, rem, limit.v(), L.v());
     }
     vf_res/*@.*/
